@@ -338,6 +338,15 @@ def _call(x, y, tol):
 
 
 def _eval(case):
+    try:
+        return _eval_unguarded(case)
+    except Exception as ex:
+        import traceback
+
+        return ["unexpected %s while evaluating the case: %s | %s" % (type(ex).__name__, ex, traceback.format_exc()[-400:])], {"classes": [], "outcome": "exception", "calls": 0, "nontrivial": False}
+
+
+def _eval_unguarded(case):
     fam = case["fam"]
     mk = MK[fam]
     msgs = []
